@@ -589,6 +589,11 @@ static bool checkTransition(const std::string& mode, const Node& node, const Op&
     return true;
 }
 
+// Histories of at most g_histDepth operations are ALL explored as distinct nodes (keyed by the history itself); only longer ones
+// are merged on the canonical state. Merging is sound only if the canonical key captures everything that influences the future -
+// amplitudes and measured flags today. State a change might add to the simulator (caches, "known zero" flags) is invisible to
+// the key, so short histories are never merged at all.
+static int g_histDepth = 0;
 static void bfs(const std::string& mode, int N, int maxDepth, long maxStates) {
     // the phase table for every gate tuple of the alphabet
     for (int n = 1; n <= N; ++n) {
@@ -634,6 +639,11 @@ static void bfs(const std::string& mode, int N, int maxDepth, long maxStates) {
             bool ok = checkTransition(mode, node, op, post);
             if (!ok) continue;
             std::string k = canon(post);
+            if (node.depth + 1 <= g_histDepth) {
+                std::vector<Op> h2 = node.hist;
+                h2.push_back(op);
+                k = "H:" + histStr(h2);
+            }
             if (seen.count(k)) continue;
             if ((long)seen.size() >= maxStates) { capped = true; continue; }
             seen[k] = node.depth + 1;
@@ -709,6 +719,7 @@ int main(int argc, char** argv) {
         std::string mode = argv[2];
         int N = atoi(argv[3]), depth = atoi(argv[4]);
         long maxStates = argc > 5 ? atol(argv[5]) : 2000000;
+        g_histDepth = argc > 6 ? atoi(argv[6]) : 0;
         bfs(mode, N, depth, maxStates);
         printViolations();
         return 0;
